@@ -4,6 +4,7 @@
 package main
 
 import (
+	"crypto/sha256"
 	"bufio"
 	"bytes"
 	"encoding/json"
@@ -67,6 +68,15 @@ func uploadWorld() *world.World {
 
 var contents = map[string][2]string{"A": {"a.txt", "AAA-content-of-file-a"}, "B": {"b.bin", "B\x00\x01\xfe\xffbinary\r\n--boundary-like"}}
 
+// summarise replaces a long "name:content" by name, length and digest (big files would bloat the trace).
+func summarise(v string) string {
+	if len(v) <= 256 {
+		return v
+	}
+	i := strings.Index(v, ":")
+	return fmt.Sprintf("%s:sha256=%x,len=%d", v[:i], sha256.Sum256([]byte(v[i+1:])), len(v)-i-1)
+}
+
 func opFor(l layout) map[string]interface{} {
 	used := map[string]bool{}
 	var calls, decls []string
@@ -97,7 +107,14 @@ func main() {
 	in := flag.String("in", "", "")
 	out := flag.String("out", "", "")
 	flag.Int64("seed", 1, "")
+	big := flag.Bool("big", false, "file A is 3 MiB (read concurrently by several upstream requests)")
 	flag.Parse()
+	if *big {
+		r := rand.New(rand.NewSource(7))
+		b := make([]byte, 3<<20)
+		r.Read(b)
+		contents["A"] = [2]string{"a.txt", string(b)}
+	}
 	_ = rand.Int
 	w := uploadWorld()
 	g, err := gw.New(w, gw.Config{Name: "default"})
@@ -135,7 +152,7 @@ func main() {
 				continue
 			}
 			byFile[fid] = append(byFile[fid], prefix+p)
-			client[p] = contents[fid][0] + ":" + contents[fid][1]
+			client[p] = summarise(contents[fid][0] + ":" + contents[fid][1])
 		}
 		if l.Batch {
 			byFile["B"] = append(byFile["B"], "1.variables.f")
@@ -172,9 +189,9 @@ func main() {
 			if lg.OpName == "Other" {
 				continue // the second operation of the batch is not part of the layout
 			}
-			files := lg.Files
-			if files == nil {
-				files = map[string]string{}
+			files := map[string]string{}
+			for k, v := range lg.Files {
+				files[k] = summarise(v)
 			}
 			used := lg.Used
 			if used == nil {
